@@ -35,7 +35,8 @@ pub struct Case {
 enum Side {
     Lib { h: Handshake, done: bool, remaining: Vec<u8>, received_at_completion: usize },
     /// digest-less peer following the original RTMP specification
-    Original { role: Role, p1: Vec<u8>, inbuf: Vec<u8>, sent_p2: bool, done: bool, started: bool },
+    Original { role: Role, p1: Vec<u8>, inbuf: Vec<u8>, sent_p2: bool, done: bool, started: bool, /// Some(t): packet 2 carries the time the peer's packet 1 was read in bytes 4..8 (section 5.2.4) instead of being a byte-exact echo
+        time2: Option<u32> },
 }
 
 struct End {
@@ -91,7 +92,7 @@ impl End {
                     Err(e) => return Err(format!("{} process_bytes returned an error: {:?}", who, e)),
                 }
             }
-            Side::Original { role: _, p1, inbuf, sent_p2, done, started } => {
+            Side::Original { role: _, p1, inbuf, sent_p2, done, started, time2 } => {
                 inbuf.extend_from_slice(bytes);
                 if !*started {
                     *started = true;
@@ -103,7 +104,11 @@ impl End {
                         return Err(format!("{}'s peer sent version byte {}", who, inbuf[0]));
                     }
                     // packet 2 = echo of the peer's packet 1
-                    out.extend_from_slice(&inbuf[1..1 + PACKET]);
+                    let mut echo = inbuf[1..1 + PACKET].to_vec();
+                    if let Some(t) = time2 {
+                        echo[4..8].copy_from_slice(&t.to_be_bytes());
+                    }
+                    out.extend_from_slice(&echo);
                     *sent_p2 = true;
                 }
                 if !*done && inbuf.len() >= TOTAL {
@@ -136,10 +141,16 @@ pub fn eval(c: &Case) -> Verdict {
         let side = if c.original_peer == Some(role) {
             let mut p1 = vec![0u8; PACKET];
             sha::prng_fill(fill ^ 0x5EED ^ (role as u64), &mut p1);
-            for b in &mut p1[4..8] {
-                *b = 0;
+            // bytes 4..8: all zero as RTMP 1.0 section 5.2.3 words it, or - as digest-less peers in the
+            // field do (the library's own comment names YouTube's ingest) - something else
+            if (fill >> 8) & 3 != 0 {
+                for b in &mut p1[4..8] {
+                    *b = 0;
+                }
+            } else if p1[4..8] == [0, 0, 0, 0] {
+                p1[5] = 1;
             }
-            Side::Original { role, p1, inbuf: Vec::new(), sent_p2: false, done: false, started: false }
+            Side::Original { role, p1, inbuf: Vec::new(), sent_p2: false, done: false, started: false, time2: if (fill >> 10) & 1 == 1 { Some((fill >> 11) as u32) } else { None } }
         } else {
             Side::Lib { h: Handshake::new(peer_type(role)), done: false, remaining: Vec::new(), received_at_completion: 0 }
         };
@@ -336,7 +347,7 @@ pub fn spec() -> PropSpec {
         assumptions: vec![
             "after Completed the driver stops calling process_bytes (documented: HandshakeAlreadyCompleted); the bytes not yet passed in count as returned",
             "a side can only be given bytes its peer has already produced: when a partition piece reaches beyond what exists, the available part is delivered",
-            "the original-handshake peer follows RTMP 1.0 section 5.2: C1/S1 = time, four zero bytes, random; C2/S2 = echo of the peer's packet 1",
+            "the original-handshake peer follows RTMP 1.0 section 5.2: C1/S1 = time, four bytes (zero as specified in 3 of 4 cases, non-zero as some digest-less peers in the field send in the others), random; C2/S2 = echo of the peer's packet 1, in half of the cases with time2 (bytes 4..8) filled in as section 5.2.4 words it",
         ],
         checks: vec![
             PropCheck::new("library-vs-library", |_| case_strategy(false), 60_000, 1_500_000, eval),
